@@ -91,7 +91,7 @@ func faultsFor(fc *FieldCase) []dataFault {
 		return []dataFault{{path: fc.refName(), remove: true, names: p, kind: "unresolvable reference", strict: true}}
 	}
 	switch fc.F.Kind {
-	case KInt, KPInt, KVInt, KUInt, KF64, KUFloat, KBool, KUBool, KPI, KUUint:
+	case KInt, KPInt, KVInt, KUInt, KF64, KUFloat, KBool, KUBool, KPI, KUUint, KUVal:
 		add("unparsable string for a number / boolean", p, "zz", p)
 		add("object where a primitive is expected", p, obj, p)
 	case KInt8:
@@ -111,6 +111,11 @@ func faultsFor(fc *FieldCase) []dataFault {
 	case KMUCfg:
 		add("primitive where an object is expected", p+".q", uint64(5), p+".q")
 	case KURefl:
+		add("primitive where an object is expected", p, uint64(5), p)
+	case KURe:
+		// the fault is below a custom Unpack method that re-roots the settings: the setting the
+		// library can name is the one it handed to the method
+		add("wrong type in a nested setting", p+".p", "zz", p)
 		add("primitive where an object is expected", p, uint64(5), p)
 	case KUCfg, KCfg, KStruct, KPStruct, KInner, KPInner, KDInt:
 		add("primitive where an object is expected", p, uint64(5), p)
@@ -169,7 +174,7 @@ func faultsFor(fc *FieldCase) []dataFault {
 func (e *E) dataFaults() {
 	var all []dataFault
 	e.C.walk(true, func(fc *FieldCase, mentioned bool) {
-		if !mentioned || fc.F.Kind == KInline {
+		if !mentioned || fc.F.Kind == KInline || fc.F.Ignore {
 			return
 		}
 		all = append(all, faultsFor(fc)...)
